@@ -19,6 +19,7 @@ def main() -> int:
     except ModuleNotFoundError as ex:
         print("no check for %s: %s" % (pid, ex), file=sys.stderr)
         return 2
+    core.set_seed(a.seed)
     ctx = core.Ctx(pid, a.tier, a.seed)
     try:
         if a.replay:
